@@ -193,6 +193,24 @@ def announce(r, ratio, how=None):
     return ["ratio", b64(ratio)]
 
 
+ODD_RATES = [44100.0, 48000.0, 22254.54, 37800.0, 96000.0, 88200.0, 32000.0, 44056.0, 48000.0 * 1.001, 50400.0]
+ODD_SCALES = [0.3, 0.7, 1.1, 3.0, 48000.0 / 44100.0, 1.0 / 3.0, 0.9, 2.2]
+
+
+def odd_setter(r):
+    """a setter with arguments whose quotient is NOT pre-checked: set_hz_to_hz over unusual rate pairs, set_sample_hz_scale
+    with a scale whose reciprocal is inexact; returns (op, the ratio binary64 division gives)"""
+    if r.chance(1, 2):
+        a, b = r.choice(ODD_RATES), r.choice(ODD_RATES)
+        return ["hz", b64(a), b64(b)], a / b
+    x = r.choice(ODD_SCALES)
+    return ["srate", b64(x)], 1.0 / x
+
+
+def as_rebuild(o):
+    return ["rebuild", 1, o[1], o[2]] if o[0] == "hz" else ["rebuild", 2, o[1], 0] if o[0] == "srate" else ["rebuild", 0, o[1], 0]
+
+
 def rebuild_op(r, ratio):
     """into_source() + one of the three constructors giving `ratio` (checked as in `announce`)"""
     o = announce(r, ratio)
@@ -222,8 +240,12 @@ def gen_conv_ops(r, depth, nout, fmt=None, ch=None, unit=False, full_scale=False
                 if c < 5:                     # the ratio in force, announced again
                     ops.append(announce(r, cur))
                 elif c < 7 and not unit:      # a new ratio
-                    cur = r.choice(SET_RATIOS)
-                    ops.append(announce(r, cur))
+                    if r.chance(1, 3):
+                        o, cur = odd_setter(r)
+                        ops.append(o)
+                    else:
+                        cur = r.choice(SET_RATIOS)
+                        ops.append(announce(r, cur))
                 elif c < 9:
                     ops.append(["acc"])
                 elif c == 9:
@@ -233,8 +255,12 @@ def gen_conv_ops(r, depth, nout, fmt=None, ch=None, unit=False, full_scale=False
                 elif c == 11 and not unit:
                     ops.append(["srcpull"])
                 elif c == 12 and not unit:
-                    cur = r.choice(SET_RATIOS)
-                    ops.append(rebuild_op(r, cur))
+                    if r.chance(1, 2):
+                        o, cur = odd_setter(r)
+                        ops.append(as_rebuild(o))
+                    else:
+                        cur = r.choice(SET_RATIOS)
+                        ops.append(rebuild_op(r, cur))
                 else:
                     ops.append(announce(r, cur, how=1))
         ops.append(["next"])
